@@ -553,12 +553,24 @@ BRIDGE = {
         "theorems": ['GEN_stats_conservation'],
         "props": ['C17'],
     },
+    "Rough.Props.GenResponder": {
+        "rs_modules": ["Responder", "Online", "LongTerm", "Message", "Merkle"],
+        "namespace": "Rough.Props.GenCore",
+        "theorems": ["GEN_cert_valid_aligned", "GEN_cert_valid", "GEN_send_responses_replies", "GEN_send_responses_verified", "GEN_send_responses_returns"],
+        "props": ["C10", "C02", "C09"],
+    },
     "Rough.Props.GenConfig": {
         "rs_modules": ["EnvConfig", "FileConfig", "Config"],
         "namespace": "Rough.Props.GenConfig",
         "theorems": ["file_getters", "env_getters", "GEN_start_file", "GEN_start_env", "GEN_file_effective_is_written",
                      "GEN_file_out_of_range_refused", "GEN_env_missing_required", "GEN_env_out_of_range_refused"],
         "props": ["C16"],
+    },
+    "Rough.Bridge.ResponderNew": {
+        "rs_modules": ["Responder", "Online", "LongTerm", "Message", "Merkle"],
+        "rs_functions": {"Responder": ["Responder::new", "struct Responder"], "Online": ["OnlineKey::new", "OnlineKey::make_dele", "struct OnlineKey"]},
+        "theorems": ["online_key_new_eq", "responder_new_sim", "server_responders_sim"],
+        "props": ["C10", "C02"],
     },
     "Rough.Bridge.Stats": {
         "rs_modules": ["StatsCore", "StatsAgg", "StatsPer"],
@@ -614,7 +626,9 @@ _BRIDGE_WHAT = {
     "Rough.Props.GenEnvelope": "stated directly about the regenerated code (bridge composed with the model-level theorem): decrypt_seed as regenerated: never panics, round trip with the model's encrypt, a different blob or key yields the seed only through an AEAD opening",
     "Rough.Props.GenClient": "stated directly about the regenerated code (bridge composed with the model-level theorem): the client's receive_response / ResponseHandler::new / extract_time as regenerated accept only responses that are authentic for this request under the pinned key",
     "Rough.Props.GenStats": "stated directly about the regenerated code (bridge composed with the model-level theorem): PerClientStats as regenerated: every event counted once or overflowed, bounded number of tracked addresses",
+    "Rough.Props.GenResponder": "stated directly about the regenerated code: LongTermKey::new + make_cert yield a certificate whose DELE carries the online key with window [0, 2^64-1] and whose signature verifies under the seed's key in the version's context (GEN_cert_valid); one batch of Responder::send_responses sends exactly the reference reply per queued request, to its source, in order, and the independent verifier accepts each (GEN_send_responses_replies / _verified); it returns normally for any drawable fault injection and any failing sends (GEN_send_responses_returns)",
     "Rough.Props.GenConfig": "C16 stated about the regenerated loaders, ServerConfig getters and validator composed as main composes them: effective = written, out-of-range refused, missing required refused (GEN_start_file / GEN_start_env = the model start)",
+    "Rough.Bridge.ResponderNew": "OnlineKey::new and Responder::new (online key from the drawn seed, certificate = make_cert of the SAME long-term key object for this version, empty queue and tree): the two responders created in Server::new's order are the model's Server.new responders",
     "Rough.Bridge.SendResponses": "responder.rs send_responses (the whole batch loop incl. failing sends, fault injection, lazily evaluated debug! arguments, statistics events)",
 }
 for _pid, _cfg in PROPS.items():
